@@ -223,6 +223,303 @@ def fold_replay_plan(ob):
     return 'milu_script', cases, lambda o: o.get('both_parsed') is True and o.get('same_tree') is False
 
 
+def combinator_tree(db, fn):
+    """the parser expression a grammar rule builds, read off its MIR: (combinator, [children]) with leaves ('lit', text) for a
+    string constant, ('rule', name) for another rule passed as a function item, ('closure', body-or-None) for a closure and
+    ('?', what) for anything else.  Rule functions are straight-line: each temporary is written once, by a combinator call or a tuple."""
+    import mirparse
+    defs = {}
+
+    def local_of(pl):
+        return pl[1] if pl and pl[0] == 'local' else None
+    for bbn in fn.blocks:
+        b = mirparse.parse_block(fn, bbn)
+        for s in b['stmts']:
+            if s[0] == 'assign' and local_of(s[1]) is not None:
+                defs[local_of(s[1])] = ('rv', s[2])
+        t = b.get('term')
+        if t and t[0] == 'call' and t[1] is not None and local_of(t[1]) is not None:
+            defs[local_of(t[1])] = ('call', t[2], t[3])
+
+    def closure_leaf(text):
+        body = db.closure_fn(text, fn.name)
+        return ('closure', body)
+
+    def looks_like_parser(t):
+        t = t.strip()
+        return t.startswith('{closure@') or (t.startswith('fn(') and t.endswith('}')) or (t.startswith('(') and any(looks_like_parser(x) for x in mirparse.split_top(t[1:-1]) if x))
+
+    def ztype(t):
+        # a zero-sized parser is passed as `const ZeroSized: <its type>`: the type spells the parser out
+        t = t.strip()
+        if t.startswith('(') and mirparse.match_close(t, 0) == len(t) - 1:
+            return ('tuple', [ztype(x) for x in mirparse.split_top(t[1:-1]) if x])
+        m = re.match(r'^fn\(.*\{(?:[A-Za-z_0-9]+::)*([A-Za-z_][A-Za-z_0-9]*)(?:::<.*>)?\}$', t)
+        if m:
+            return ('rule', m.group(1))
+        if t.startswith('{closure@'):
+            inner = t[len('{closure@'):mirparse.match_close(t, 0)]
+            m = re.match(r'^((?:[A-Za-z_0-9]+::)*[A-Za-z_][A-Za-z_0-9]*)<(.*)>(?:::\{closure#\d+\})?$', inner)
+            if m:
+                kids = [ztype(x) for x in mirparse.split_top(m.group(2)) if looks_like_parser(x)]
+                return (m.group(1).split('::')[-1], kids)
+            return closure_leaf(t)
+        return ('?', t[:40])
+
+    def operand(op):
+        if op[0] in ('move', 'copy'):
+            n = local_of(op[1])
+            return node(n) if n is not None else ('?', 'projection')
+        c = op[1]
+        if c.startswith('ZeroSized: '):
+            return ztype(c[len('ZeroSized: '):])
+        m = re.match(r'^"((?:[^"\\]|\\.)*)"$', c)
+        if m:
+            return ('lit', bytes(m.group(1), 'utf-8').decode('unicode_escape'))
+        if '{closure@' in c:
+            return closure_leaf(c)
+        m = re.match(r'^(?:[A-Za-z_0-9]+::)*([A-Za-z_][A-Za-z_0-9]*)(?:::<.*>)?$', c)
+        if m:
+            return ('rule', m.group(1))
+        return ('?', c[:40])
+
+    def node(n, depth=0):
+        d = defs.get(n)
+        if d is None:
+            return ('?', '_%d' % n)
+        if d[0] == 'call':
+            callee = d[1]
+            head = re.sub(r'::<.*$', '', callee.strip())
+            if head.startswith('<'):
+                # <T as Trait>::method -- the receiver is the first argument
+                head = re.sub(r'^.*>::', '', callee.strip())
+            return (head.split('::')[-1], [operand(a) for a in d[2]])
+        rv = d[1]
+        if rv[0] == 'tuple':
+            return ('tuple', [operand(x) for x in rv[1]])
+        if rv[0] == 'use':
+            return operand(rv[1])
+        if rv[0] == 'closure':
+            return closure_leaf(rv[1])
+        if rv[0] == 'ref':
+            n2 = local_of(rv[2])
+            return node(n2) if n2 is not None else ('?', 'ref')
+        return ('?', rv[0])
+    # the rule's result: the parser it built, applied to the input
+    ret = None
+    for bbn in fn.blocks:
+        t = fn.blocks[bbn].get('term')
+        if t and t[0] == 'call' and t[1] is not None and local_of(t[1]) == 0:
+            ret = t
+    if ret is None or not ret[3]:
+        return ('?', 'no result call')
+    return operand(ret[3][0])
+
+
+def show_tree(t, ind=0):
+    if t[0] in ('lit', 'rule', '?'):
+        return ' ' * ind + '%s %r' % (t[0], t[1])
+    if t[0] == 'closure':
+        return ' ' * ind + 'closure %s' % (t[1].name if t[1] is not None else None)
+    return ' ' * ind + t[0] + '\n' + '\n'.join(show_tree(c, ind + 2) for c in t[1])
+
+
+def normal_tree(t):
+    """combinator tree -> grammar shape: ('tok', text) | ('rule', name) | ('seq', [..]) | ('alt', [..]) | ('many', x) | ('map', x, closure) | ('?', ..);
+    blank skipping and error context are dropped"""
+    k = t[0]
+    if k in ('lit', '?'):
+        return ('?', t[1])
+    if k == 'rule':
+        return ('skip',) if t[1] == 'blank' else t
+    if k == 'closure':
+        return ('?', 'closure')
+    kids = t[1]
+    if k in ('tag', 'tag_no_case') and kids and kids[0][0] == 'lit':
+        return ('tok', kids[0][1])
+    if k == 'context':
+        return normal_tree(kids[-1])
+    if k == 'ws' and len(kids) == 1:
+        return normal_tree(kids[0])
+    if k in ('tuple', 'pair') and len(kids) == 1 and kids[0][0] == 'tuple':
+        return ('seq', [normal_tree(x) for x in kids[0][1]])
+    if k in ('tuple', 'pair', 'preceded', 'terminated', 'delimited', 'separated_pair'):
+        ks = [normal_tree(x) for x in kids]
+        return ('seq', [x for x in ks if x != ('skip',)]) if len([x for x in ks if x != ('skip',)]) != 1 else [x for x in ks if x != ('skip',)][0]
+    if k == 'alt' and len(kids) == 1 and kids[0][0] == 'tuple':
+        return ('alt', [normal_tree(x) for x in kids[0][1]])
+    if k in ('many0', 'many1') and len(kids) == 1:
+        return ('many', normal_tree(kids[0]))
+    if k == 'map' and len(kids) == 2:
+        return ('map', normal_tree(kids[0]), kids[1][1] if kids[1][0] == 'closure' else None)
+    if k in ('opt', 'cut', 'complete', 'recognize', 'peek') and len(kids) == 1:
+        return (k, normal_tree(kids[0]))
+    return ('?', k)
+
+
+def _flat(t):
+    """the tokens / rules a sequence consumes, in order (maps looked through)"""
+    if t[0] == 'seq':
+        return [y for x in t[1] for y in _flat(x)]
+    if t[0] == 'map':
+        return _flat(t[1])
+    return [t]
+
+
+def _holds_tok(t, text):
+    if t[0] == 'tok':
+        return t[1] == text
+    if t[0] in ('seq', 'alt'):
+        return any(_holds_tok(x, text) for x in t[1])
+    if t[0] in ('many', 'map', 'opt', 'cut'):
+        return _holds_tok(t[1], text)
+    return False
+
+
+def spec_conditional_nests_right(ck):
+    """the documented conditional operator `c ? y : n` is right-to-left: `a ? b : c ? d : e` is a ? b : (c ? d : e).  The rule
+    holding the `?` and `:` tokens is read off the MIR as a combinator tree.  Two ways of writing it are understood:
+    the else operand parsed by a rule that can itself begin with this conditional (right nesting by construction; the rule's
+    closure must hand (condition, yes, no) to the constructor in that order), and a loop collecting `? y : n` arms behind the
+    condition (its closure is run on two arms and must build If(a, b, If(c, d, e)))."""
+    db = ck.dbs['milu']
+    label = 'C09/conditional/chain-nests-right-to-left'
+    try:
+        readme = open(os.path.join(harness.REPO, 'milu', 'readme.md'), encoding='utf-8').read()
+    except OSError:
+        readme = ''
+    row = [ln for ln in readme.split('\n') if re.search(r'`\s*…\s*\?\s*…\s*:\s*…\s*`', ln)]
+    if not row or 'right-to-left' not in row[0].lower():
+        ck.add(label, 'undecided', 'anchor_missing: the documented table has no right-to-left `… ? … : …` row')
+        return
+    rules = {}
+    for f in db.fns:
+        m = re.match(r'^(?:parser::)?([a-z][a-z_0-9]*)$', f.name)
+        if m and f.params and 'LocatedSpan' in f.params[0][1] and len(f.params) == 1:
+            try:
+                rules[m.group(1)] = (f, normal_tree(combinator_tree(db, f)))
+            except Exception as e:   # noqa
+                continue
+    tern = [(n, f, t) for n, (f, t) in rules.items() if _holds_tok(t, '?') and _holds_tok(t, ':')]
+    if len(tern) != 1:
+        ck.add(label, 'undecided' if not tern else 'inconclusive', 'anchor_missing: %d grammar rules hold both a `?` and a `:` token' % len(tern))
+        return
+    name, fn, tree = tern[0]
+    ck.target(fn)
+
+    def can_begin_with(t, depth=0):
+        # can this parser, at its first position, run the conditional's rule?
+        if t[0] == 'rule':
+            if t[1] == name:
+                return True
+            return depth < 4 and t[1] in rules and t[1] != name and can_begin_with(rules[t[1]][1], depth + 1)
+        if t[0] == 'alt':
+            return any(can_begin_with(x, depth) for x in t[1])
+        if t[0] == 'seq':
+            return bool(t[1]) and can_begin_with(t[1][0], depth)
+        if t[0] in ('map', 'opt', 'cut'):
+            return can_begin_with(t[1], depth)
+        return False
+
+    def find_maps(t, acc):
+        if t[0] == 'map':
+            acc.append(t)
+            find_maps(t[1], acc)
+        elif t[0] in ('seq', 'alt'):
+            for x in t[1]:
+                find_maps(x, acc)
+        elif t[0] in ('many', 'opt', 'cut'):
+            find_maps(t[1], acc)
+        return acc
+
+    def branches(t):
+        return [b for x in t[1] for b in branches(x)] if t[0] == 'alt' else [t]
+    ex = ck.engine(db=db, loop_bound=5)
+    ex.benign_havoc = harness.IRRELEVANT
+
+    def make_if(ctx):
+        return Agg('IfCall', {0: ctx.args[0], 1: ctx.args[1], 2: ctx.args[2]})
+    ex.overrides.append((re.compile(r'(?:^|::)If::make_call$'), make_if))
+    ex.overrides.append((re.compile(r'<.* as (?:std::convert::|core::convert::)?Into<(?:script::)?Value>>::into$|<.* as (?:std::convert::|core::convert::)?From<.*Call>>::from$'), lambda ctx: ctx.args[0]))
+
+    def strip(o, v):
+        # Value::OpCall(Arc<Call>) around the recorded constructor call (the repository's own From<Call> for Value ran)
+        for _ in range(6):
+            if isinstance(v, Ref):
+                v = ex.deref(o, v)
+            elif isinstance(v, Agg) and v.name != 'IfCall' and v.variants and isinstance(v.discr, int) and list(v.variants.get(v.discr, {}).keys()) == [0]:
+                v = v.variants[v.discr][0]
+            else:
+                break
+        return v
+
+    def is_if(o, v, c, y, n):
+        v = strip(o, v)
+        ok = isinstance(v, Agg) and v.name == 'IfCall'
+        return ok and all((w(v.fields[k]) if callable(w) else v.fields[k] is w) for k, w in enumerate((c, y, n)))
+    decided = False
+    why = []
+    for mp in find_maps(tree, []):
+        if not (_holds_tok(mp[1], '?') and _holds_tok(mp[1], ':')) or mp[2] is None:
+            continue
+        c = mp[2]
+        if len(c.params) != 2:
+            continue
+        pty = c.params[1][1].strip()
+        for br in branches(mp[1]):
+            if not (_holds_tok(br, '?') and _holds_tok(br, ':')):
+                continue
+            fl = _flat(br)
+            toks = [(i, x[1]) for i, x in enumerate(fl) if x[0] == 'tok']
+            st = State()
+            env = Ref(st.alloc(Agg(c.params[0][1].strip().lstrip('&').replace('mut ', '').strip(), {})), ())
+            a, b, cc, d, e = (Opaque('Value', n_) for n_ in ('a', 'b', 'c', 'd', 'e'))
+            if len(fl) == 5 and [t_ for _, t_ in toks] == ['?', ':'] and [i for i, _ in toks] == [1, 3] \
+                    and re.search(r'^\((?:script::)?Value, (?:script::)?Value, (?:script::)?Value\)$', pty):
+                # condition ? yes : no, each operand one parser
+                if not can_begin_with(fl[4]):
+                    # the operand after `:` cannot begin with another conditional: `a ? b : c ? d : e` does not nest to the right
+                    st.env['inputs'] = dict(st.env.get('inputs', {}), else_operand=Bytes.from_py(repr(fl[4]).encode(), 'str'))
+                    ex.prove(st, label, z3.BoolVal(False))
+                    decided = True
+                    continue
+                if can_begin_with(fl[0]):
+                    why.append('the condition is parsed by %r, which begins with this very rule (left recursion)' % (fl[0],))
+                    continue
+                for o in ex.call_fn(st, c, [env, Agg('tuple', {0: a, 1: b, 2: cc})]):
+                    if o.status == 'returned':
+                        decided = True
+                        ex.prove(o, label, z3.BoolVal(is_if(o, o.ret, a, b, cc)))
+            elif len(fl) == 2 and fl[1][0] == 'many' and re.search(r'^\((?:script::)?Value, (?:std::vec::)?Vec<\((?:script::)?Value, (?:script::)?Value\)>\)$', pty):
+                arm = _flat(fl[1][1])
+                if [x[1] for x in arm if x[0] == 'tok'] != ['?', ':'] or len(arm) != 4:
+                    why.append('loop arm %r' % (arm,))
+                    continue
+                arms = SeqV.from_items([Agg('tuple', {0: b, 1: cc}), Agg('tuple', {0: d, 1: e})], '(Value, Value)', 'vec')
+                for o in ex.call_fn(st, c, [env, Agg('tuple', {0: a, 1: arms})]):
+                    if o.status == 'returned':
+                        decided = True
+                        ex.prove(o, label, z3.BoolVal(is_if(o, o.ret, a, b, lambda v: is_if(o, v, cc, d, e))))
+            else:
+                why.append('sequence %r handed to a closure over %s' % (fl, pty))
+    for f in ex.findings:
+        if not hasattr(f, 'target'):
+            f.target = 'conditional operator'
+    ck.plans.append(conditional_replay_plan)
+    if not decided:
+        ck.add(label, 'inconclusive', 'the conditional rule %s is written in a shape this check does not understand: %s' % (name, '; '.join(why)[:300]))
+    ck.absorb(ex, 'parser::%s (conditional operator)' % name, None)
+    ck.bounds['conditional-operator'] = 'a chain of two conditionals `a ? b : c ? d : e`; the rule written as recursion through its else operand or as a loop over `? y : n` arms'
+
+
+def conditional_replay_plan(ob):
+    if (ob.target or '') != 'conditional operator' or not ob.label.startswith('C09/conditional/'):
+        return None
+    cases = [{'driver': 'parse_pair', 'args': {'a': x, 'b': y}} for x, y in (('true ? 1 : false ? 2 : 3', 'true ? 1 : (false ? 2 : 3)'), ('false ? 1 : true ? 2 : 3', 'false ? 1 : (true ? 2 : 3)'),
+                                                                              ('1 > 2 ? "a" : 2 > 1 ? "b" : "c"', '1 > 2 ? "a" : (2 > 1 ? "b" : "c")'))]
+    return 'milu_script', cases, lambda o: o.get('both_parsed') is True and o.get('same_tree') is False
+
+
 def documented_prefix_operators(readme_text):
     """spellings of the documented prefix operators (syntax column `X …`), with their documented associativity"""
     out = []
